@@ -6,7 +6,7 @@ from ..runner import crash_violation
 PID = "C14"
 LEVEL = "exploration"
 RULE = ("blocks A(2 atoms) C(3, explicit exclusion) D(4-atom chain + constraint) with exclusion distances from {1,2,3}^3 (n<=3) and "
-        "{0..4}^2 (A,D; n<=4) x bond-making link sets {bb},{bb,a_c},{gt},{bb,lt_sa} x all labelled connected residue graphs x all "
+        "{0..4}^2 (A,D; n<=4) x bond-making link sets {bb},{bb,a_c},{gt},{bb,lt_sa},{bb,exl: explicit link exclusion} x all labelled connected residue graphs x all "
         "resname assignments; effective exclusion set of the built molecule (pairs within the molecule-wide nrexcl by BFS over the "
         "observed edges, plus explicit [ exclusions ]) must equal {1<=d(a,b)<=max(excl(block a), excl(block b))} U explicit block "
         "exclusions; uniform inputs keep nrexcl and gain no exclusion; n<=2 also through the written .itp. non-trivial = mixed "
@@ -15,7 +15,7 @@ ASSUMPTIONS = ["consecutive atoms of angles/dihedrals are also bonded in the alp
                "reference: pmc/ref_genparams.expected_exclusions"]
 BUDGET = {"quick": 420, "thorough": 2400}
 
-LINKSETS = [["bb"], ["bb", "a_c"], ["gt"], ["bb", "lt_sa"]]
+LINKSETS = [["bb"], ["bb", "a_c"], ["gt"], ["bb", "lt_sa"], ["bb", "exl"]]
 
 
 def cases(tier):
